@@ -62,9 +62,10 @@ ASSUMPTIONS = [
     "arbitrary distinct non-negative ids",
     "a table row with pid == -1 is a root; any other pid names the row carrying that id (the library's own convention)",
     "repair oracle asserts exactly: one root, every node reaches it, the root is the file's first root, every original (child,parent) "
-    "pair is kept, every column other than id/pid is unchanged; the attachment target of a former root is a diagnostic only; the "
-    "type column is asserted with the former roots already carrying the soma type, or with update_type=False (so 'marking as soma' "
-    "and 'leaving the type' both pass)",
+    "pair is kept, every column other than id/pid is unchanged; the attachment target of a former root is a diagnostic only; "
+    "through read_swc(fix_roots=...) - the form the statement speaks of - the type column is asserted for roots of any type "
+    "('keeps ... every node attribute'); for the stand-alone mark_roots_as_somas() the type column is asserted with the former "
+    "roots already carrying the soma type, or with update_type=False (an explicit request to re-type is not the statement's business)",
     "all coordinates / radii used are multiples of 1/4, exactly representable in text and binary",
     "step horizon counts python line events inside swcgeom frames only; bound = 400 + 60*n*n events, >= 10x the largest count measured "
     "on the repaired tree for n <= 6 (211 events); deterministic, load-independent. The repair space and the size sweeps run without "
@@ -963,6 +964,18 @@ def check_forest(case, R):
         # ---------------------------------------------------------------- read_swc
         rows = make_rows(p, geom, "soma")
         text = swc_text(p, rows, base, extra)
+        # The statement: every repair mode "keeps ... every node attribute" - the type column included, whatever type the
+        # file's roots carry.  So the file is also read with roots typed 2/3/4 (one option set), judged with types asserted.
+        vrows = make_rows(p, geom, "varied")
+        vtext = swc_text(p, vrows, base, extra)
+        for mode in (False, "somas", "nearest"):
+            what = f"read_swc[fix_roots={mode!r},reset,roots-not-typed-soma]"
+            kw = {"extra_cols": ["a"]} if extra else {}
+            with warnings.catch_warnings():
+                warnings.simplefilter("ignore")
+                ok, res = call(R, what, kbase, lambda: f"{what} geometry={geom} file:\n{vtext}", su.read_swc, io.StringIO(vtext), fix_roots=mode, **kw)
+            if ok:
+                judge(R, what, kbase, p, vrows, res[0], extra, mode is not False or not multi, geom, mode)
         for mode in (False, "somas", "nearest"):
             for oname, opts in READ_OPTS:
                 if mode is False and oname == "sort" and multi:
